@@ -324,8 +324,42 @@ def gw4(P, C):
          det5 or "expected flatten(F), flatten(R), one cholmod_l_add with the penalty argument, one cholesky_solve")
 
 
+def gw5(P, C):
+    C.rule("GW-5", "glamfit_complex hands the assembled system to the solver as CHOLMOD built it: between their creation and the solver call no "
+           "field of the system matrix, the right-hand side or their flattened sources is written (the solvers switch the matrix between "
+           "'upper triangle' and 'full' views themselves and rely on both triangles being stored)", floor=1)
+    f = P.one("glamfit_complex")
+    ad = calls(f, "cholmod_l_add")
+    sd = calls(f, "cholmod_l_sparse_to_dense")
+    fl = calls(f, "flatten_ndarray_to_sparse")
+    objs = {}
+    for c_, nm in ((ad, "system matrix"), (sd, "right-hand side")):
+        if len(c_) == 1:
+            objs[c_[0][3][0]] = nm
+    for c_ in fl:
+        objs[c_[3][0]] = "flattened array"
+    if len(objs) < 4:
+        raise core.AnalysisBroken("GW-5: system objects not identified (%d)" % len(objs))
+    bad = []
+    for i in f.walk():
+        ap = ts.assign_parts(f, i)
+        if not ap:
+            continue
+        l = f.strip(ap[0])
+        while f.k(l) in ("ArraySubscriptExpr",):
+            l = f.strip(f.nodes[l]["ch"][0])
+        if f.k(l) == "MemberExpr" and f.nodes[l].get("ch"):
+            b = f.strip(f.nodes[l]["ch"][0])
+            if f.k(b) == "DeclRefExpr" and f.nodes[b]["decl"]["id"] in objs:
+                bad.append((i, objs[f.nodes[b]["decl"]["id"]], f.nodes[l]["member"]))
+    C.ob("GW-5", "glamfit_complex", "system-untouched", not bad, f.loc(bad[0][0]) if bad else f.where(),
+         "no field of the system matrix, right-hand side or flattened arrays is written" if not bad else
+         "field `%s` of the %s is overwritten at %s before the solve" % (bad[0][2], bad[0][1], f.loc(bad[0][0])))
+
+
 def run(P, C):
     gw1(P, C)
     gw2(P, C)
     gw3(P, C)
     gw4(P, C)
+    gw5(P, C)
